@@ -822,10 +822,21 @@ pub fn run(_ctx: &Ctx, case: &UciCase, spec: &SchedSpec) -> RunReport {
         stats.absorb_sched(&sched2);
         stats.eval("C18:differential");
         let lines_before = case.script[..pf].iter().filter(|s| matches!(s, UStep::Line(_))).count();
+        // The comparison presumes that both sessions were driven alike: every `go` of the new
+        // game had come to rest before the next command was delivered. When a Settle step ran out
+        // of its step budget (a long game-1 search ate it), later commands were delivered early
+        // in one session only, and a difference says nothing about search memory.
+        let budget_used = |s: &Session| s.log.iter().any(|e| matches!(e, Event::Note { text } if text == "settle-budget-used"));
+        let skip = budget_used(sa) || sb.as_ref().map(|s| budget_used(s)).unwrap_or(false);
+        if skip {
+            stats.probe("C18:comparison-skipped:settle-budget-used");
+        }
         if let (Some(sb), true) = (sb, o2 == Outcome::Completed) {
             let ta = probe_transcript(sa, lines_before);
             let tb = probe_transcript(&sb, fresh_first_line);
-            if ta != tb {
+            if skip {
+                // nothing to conclude
+            } else if ta != tb {
                 let d = ta.iter().zip(tb.iter()).position(|(a, b)| a != b).unwrap_or(ta.len().min(tb.len()));
                 let cmds: Vec<&String> = case.script.iter().filter_map(|s| if let UStep::Line(l) = s { Some(l) } else { None }).collect();
                 violations.push(Violation::new(
